@@ -26,6 +26,11 @@ def run(rep, tier):
         for tn in ("WStamp", "WHex", "MixS"):
             jobs.append({"schema": sdl2, "queries": "query Q { ping }", "config": {"convert_to_snake_case": snake, "scalars": scal}, "types": [tn], "known": rep._known,
                          "depth": 2, "L": 2, "scalar_domain": dom})
+    # pruned packages: only the inputs an operation needs are emitted (their enums must still be imported), later-declared inputs first
+    for q, tn in (("query Q($n: Names) { ping(n: $n) }", "Names"), ("query Q($d2: Defs) { ping(d2: $d2) }", "Defs"), ("query Q($f: WEnum) { ping(f: $f) }", "WEnum")):
+        for all_enums in (True, False):
+            jobs.append({"schema": sdl, "queries": q, "config": {"convert_to_snake_case": True, "include_all_inputs": False, "include_all_enums": all_enums},
+                         "types": [tn], "known": rep._known, "depth": 2, "L": 2})
     results = gen.pmap(ezin_check.analyze_inputs, jobs)
     progs = types = nodes = 0
     for job, r in zip(jobs, results):
